@@ -37,6 +37,7 @@ ASSUMPTIONS = [
     "NpzFile.__getitem__ of the installed numpy: exact member name first, then the member whose name minus '.npy' equals "
     "the key; ZipFile.open(name) returns the last member of that name (checked by the duplicate-postfix and '.npy' scenarios)",
 ]
+OPTIMIZED_TWIN = True   # the implementation-side search is repeated under `python -O` (validation must not live in assert / __debug__)
 TRUSTED = ["zipfile / numpy.lib.format byte codecs", "the scratch directory /tmp/discrete/c17-* is private to the run"]
 
 SCRATCH_ROOT = pathlib.Path("/tmp/discrete")
